@@ -134,6 +134,43 @@ impl FaultProbe {
             if !check_crash_store(sc, &h, "failed-commit", &w.reps[r].store.snapshot(), None, cx) {
                 return;
             }
+            if j.is_none() {
+                // variant: abandon the staged changes after the failure, make the same edits again, commit
+                let is_edit = |o: &Op| matches!(o, Op::Upd(..) | Op::ObjPut(..) | Op::ObjDel(..));
+                let suffix_len = hist.iter().rev().take_while(|o| o.replica() != r || is_edit(o)).count();
+                let idx = hist.len() - suffix_len;
+                let staged_ops: Vec<Op> = hist[idx..].iter().filter(|o| o.replica() == r).cloned().collect();
+                let was_clean = {
+                    let wpre = sc.build(&hist[..idx]);
+                    !wpre.any_dead() && !has_staging(&wpre.reps[r].m)
+                };
+                if !staged_ops.is_empty() && was_clean {
+                    let mut w3 = sc.build(hist);
+                    w3.reps[r].store.arm(BTreeSet::from([k]));
+                    let _ = w3.apply(&op);
+                    w3.reps[r].store.take_log();
+                    let mut h3 = h.clone();
+                    let mut okk = w3.apply(&Op::Unstage(r)).is_ok();
+                    h3.push(Op::Unstage(r));
+                    for so in &staged_ops {
+                        okk &= w3.apply(so).is_ok();
+                        h3.push(so.clone());
+                    }
+                    let o4 = w3.apply(&op);
+                    h3.push(op.clone());
+                    cx.count("commit_fault_abandon_and_redo");
+                    if okk && matches!(&o4, OpOut::Ok(s) if s != "none") {
+                        let re = strip_anchors(&fresh_view(&w3.reps[r].store.snapshot(), "C09 reopen(after abandon and redo)"));
+                        if re != twin_reopened {
+                            cx.violation("C09", "C09:redo-after-failed-commit-differs-from-uninterrupted-commit", sc, &h3, detail(json!({"differs": diff_keys(&re, &twin_reopened), "redone": re, "uninterrupted": twin_reopened})));
+                            return;
+                        }
+                    } else if okk {
+                        cx.violation("C09", "C09:redo-after-failed-commit-did-not-commit", sc, &h3, detail(json!({"outcome": o4.text()})));
+                        return;
+                    }
+                }
+            }
             if let Some(j) = j {
                 w.reps[r].store.arm(BTreeSet::from([j]));
                 let o2 = w.apply(&op);
